@@ -381,6 +381,7 @@ def _cc():
 
 
 ROLE = {"D": "data", "R": "rand", "U": "unk", "V": "urand"}
+FILE_OBSERVED = ("create", "load", "trees", "probe")       # steps whose observation reads files below the cache paths
 
 
 def closed_edges(cfg):
@@ -507,6 +508,12 @@ def run_script(script, base, rank, size, mark, results):
         else:
             raise KeyError("unknown step " + op)
         results.append(res)
+        if op in FILE_OBSERVED:
+            # the observation of this step READS cache files (the root's summary of a catalog / of its trees, every rank's read of
+            # the trees); the next call of the history may delete or rewrite them on another rank, so a correct script - like a
+            # correct user program - synchronises before it goes on.  (Without this a rank that is still reading sees the
+            # half-rebuilt cache of the NEXT call: a race of the script, not a result of the library.)
+            parallel.COMM.Barrier()
     mark(len(script["steps"]))
     parallel.COMM.Barrier()         # (no-op in the single process) nothing may be left in flight when a rank exits
     return results
